@@ -122,14 +122,18 @@ fn check_one(c: &Case, archive: &[u8], reference: &BTreeMap<String, Vec<u8>>, sc
 fn eval(c: &Case, rep: &mut Report) {
     infra::watch_case(json!({"program": c.p.short(), "cfg": c.cfg.json(), "subset": c.subset}));
     let Ok(Ok((archive, _))) = guard(|| prog::build(&c.p, &c.cfg)) else {
-        rep.count("archive_not_built(see C01)", 1);
+        rep.evaluations += 1;
+        rep.violate(Violation { sig: json!({"kind": "subject_archive_cannot_be_built", "layers": c.cfg.layers.tag()}), detail: format!("{} / {}: a valid writer program gives no archive; an explorer that drops such inputs would pass vacuously", c.p.short(), c.cfg.layers.tag()), replay: json!({"program": c.p.json(), "cfg": c.cfg.json()}), weight: 0 });
         return;
     };
     // reference: per-file extraction on a fresh reader
     let reference: BTreeMap<String, Vec<u8>> = match guard(|| prog::read_all(&archive, &[0])) {
         Ok(Ok(f)) => f.into_iter().map(|(k, v)| (k, v.data)).collect(),
-        _ => {
-            rep.count("archive_not_readable_per_file(see C01)", 1);
+        other => {
+            // per-file extraction is one side of the comparison: an intact archive on which it fails is a disagreement
+            // in itself (and dropping the case would make the check pass vacuously)
+            rep.evaluations += 1;
+            rep.violate(Violation { sig: json!({"kind": "intact_archive_not_readable_per_file", "layers": c.cfg.layers.tag()}), detail: format!("{} / {}: per-file extraction of the intact archive fails: {}", c.p.short(), c.cfg.layers.tag(), match other { Ok(Err(e)) => e, Err(p) => format!("{p:?}"), _ => String::new() }), replay: json!({"program": c.p.json(), "cfg": c.cfg.json()}), weight: 0 });
             return;
         }
     };
@@ -278,7 +282,8 @@ fn cli_linear(rep: &mut Report) {
             p.names = (0..nfiles).map(|i| format!("d{}/file{i:04}", i % 7)).collect();
             let cfg = Cfg::new(layers);
             let Ok(Ok((archive, _))) = guard(|| prog::build(&p, &cfg)) else {
-                rep.count("archive_not_built(see C01)", 1);
+                rep.evaluations += 1;
+                rep.violate(Violation { sig: json!({"kind": "subject_archive_cannot_be_built", "layers": layers.tag()}), detail: format!("{nfiles} interleaved files / {}: a valid writer program gives no archive", layers.tag()), replay: json!({"cli_linear": {"files": nfiles, "layers": layers.tag()}}), weight: 0 });
                 continue;
             };
             let model = p.model();
@@ -378,6 +383,21 @@ pub fn run(started: Instant) -> i32 {
     progs.extend(families::a3(Entropy::Pattern, if thorough { 3 } else { 8 }));
     let sizes = [1usize, CHUNK + 1, BLOCK + 1];
     progs.extend(families::tree(3, if thorough { 7 } else { 6 }, if thorough { 3 } else { 2 }, &sizes, Entropy::Pattern));
+    // the same walk over members with unusual names: the longest accepted name (65536 bytes), the empty name, non-ASCII
+    let odd = ["n".repeat(65536), String::new(), "é☠/😀".to_string()];
+    let renamed: Vec<Program> = progs
+        .iter()
+        .filter(|p| !p.names.is_empty() && p.names.len() <= 3)
+        .step_by(7)
+        .take(12)
+        .enumerate()
+        .map(|(k, p)| {
+            let mut q = p.clone();
+            q.names = (0..p.names.len()).map(|i| odd[(i + k) % 3].clone()).collect();
+            q
+        })
+        .collect();
+    progs.extend(renamed);
     let mut cases = Vec::new();
     for p in &progs {
         let nf = p.names.len() as u32;
@@ -421,7 +441,7 @@ pub fn run(started: Instant) -> i32 {
         rep,
         Meta {
             level: "model_checking",
-            rule: "archives from the interleaving sweep and the complete program tree (<=3 files) x 4 layer combinations x subsets of names (all 8 subsets without compression; none / first / all with compression) x sink schedules (everything, 1 byte per call, 3 bytes per call; one deviation {1, half, all-but-one, Interrupted} at every sink call on 8 rich archives): real linear_extract into throttled sinks; each sink must hold exactly what get_file returns on a fresh reader. Missing end marker: for 8 programs and layers none/compress, the block stream cut at EVERY byte before the marker + the valid footer (compressed with the real layer writer): Ok only if an independent block walker also reaches a marker. CLI: library-written interleaved archives with 3 / 40 / 1100 files in progress at once (more than mlar's pool of 1000 open output files), layers none and both, extracted by the mlar binary (whole archive = linear path, and --glob '*'): every file must hold exactly its bytes. non-trivial = proper subsets or non-default schedules, and all missing-marker cases".to_string(),
+            rule: "archives from the interleaving sweep and the complete program tree (<=3 files; 12 of them again with the names {65536 bytes, empty, non-ASCII}) x 4 layer combinations x subsets of names (all 8 subsets without compression; none / first / all with compression) x sink schedules (everything, 1 byte per call, 3 bytes per call; one deviation {1, half, all-but-one, Interrupted} at every sink call on 8 rich archives): real linear_extract into throttled sinks; each sink must hold exactly what get_file returns on a fresh reader. Missing end marker: for 8 programs and layers none/compress, the block stream cut at EVERY byte before the marker + the valid footer (compressed with the real layer writer): Ok only if an independent block walker also reaches a marker. CLI: library-written interleaved archives with 3 / 40 / 1100 files in progress at once (more than mlar's pool of 1000 open output files), layers none and both, extracted by the mlar binary (whole archive = linear path, and --glob '*'): every file must hold exactly its bytes. non-trivial = proper subsets or non-default schedules, and all missing-marker cases".to_string(),
             exhaustive: true,
             bounds: json!({"programs": progs.len(), "cases": cases.len(), "missing_marker_programs": mm.len()}),
             assumptions: vec!["scaled constants".to_string()],
